@@ -7,6 +7,7 @@ import (
 	"sort"
 	"strings"
 	"sync"
+	"sync/atomic"
 	"time"
 
 	otter "github.com/maypok86/otter/v2"
@@ -63,6 +64,23 @@ func (g *gatedLoader) Reload(ctx context.Context, k int, old int) (int, error) {
 	return g.enter(k, true, old)
 }
 
+// hookClock is the real monotonic clock, except that the first sample taken after [hook] was armed runs
+// the hook first.  The load engine arms it just before it lets a loader return: the next sample is the
+// one afterDeleteCall takes between the loader's return and the publication of its result, so the hook
+// runs inside exactly that window.
+type hookClock struct {
+	start time.Time
+	hook  atomic.Pointer[func()]
+}
+
+func (h *hookClock) NowNano() int64 {
+	if f := h.hook.Swap(nil); f != nil {
+		(*f)()
+	}
+	return int64(time.Since(h.start))
+}
+func (h *hookClock) Tick(d time.Duration) <-chan time.Time { return time.Tick(d) }
+
 type getResult struct {
 	thread int
 	val    int
@@ -78,7 +96,8 @@ func runLoad(seed uint64, scale int, out string, _ string) *summary {
 	nCases := 120 * scale
 	for cn := 0; cn < nCases; cn++ {
 		withRefresh := r.chance(40)
-		opts := &otter.Options[int, int]{Logger: &otter.NoopLogger{}}
+		clk := &hookClock{start: time.Now()}
+		opts := &otter.Options[int, int]{Logger: &otter.NoopLogger{}, Clock: clk}
 		if withRefresh {
 			opts.RefreshCalculator = otter.RefreshWriting[int, int](time.Hour)
 		}
@@ -230,8 +249,63 @@ func runLoad(seed uint64, scale int, out string, _ string) *summary {
 				if (fl.g.reload || fl.refresh) && oc.kind == "P" {
 					oc.kind = "E" // a panic inside an executor task is the executor's business
 				}
+				// a late arrival: a Get of the same key that starts after the loader has returned but
+				// before its result is published (the clock sample afterDeleteCall takes lies in that
+				// window).  It must still join this load.
+				var lateGate *gate
+				lateTh, lateJoined := 0, false
+				kLate := fl.g.key
+				if _, present := c.GetEntryQuietly(kLate); !present && !fl.g.reload && registered[kLate] == fl && r.chance(45) {
+					thread++
+					lateTh = thread
+					th := lateTh
+					pendingThreads[th] = true
+					fn := func() {
+						go func() {
+							defer func() {
+								if rec := recover(); rec != nil {
+									results <- getResult{th, 0, "P"}
+								}
+							}()
+							v, err := c.Get(context.Background(), kLate, gl)
+							es := ""
+							if err != nil {
+								es = "E"
+								if errors.Is(err, otter.ErrNotFound) {
+									es = "N"
+								}
+							}
+							results <- getResult{th, v, es}
+						}()
+						select {
+						case lateGate = <-gl.started:
+						case <-time.After(3 * time.Millisecond):
+							lateJoined = true
+						}
+					}
+					clk.hook.Store(&fn)
+				}
 				fl.g.release <- oc
 				rs := collect(40 * time.Millisecond)
+				if lateTh != 0 {
+					if clk.hook.Swap(nil) != nil {
+						// the window was not reached (no clock sample): the read never started
+						delete(pendingThreads, lateTh)
+						lateTh = 0
+					} else if lateGate != nil {
+						sum.fail("C08", "overlap", "a second loader invocation started for a key whose load had returned but was not yet published",
+							fmt.Sprintf("%s key=%d running=%d new=%d", desc, kLate, fl.g.id, lateGate.id))
+						nf := &flight{g: lateGate, waiters: []int{lateTh}}
+						inflight[lateGate.id] = nf
+						registered[kLate] = nf
+						t.line("LS %d %d 0 L %d", lateTh, kLate, lateGate.id)
+						sum.Dist["late_arrival_loaded"]++
+					} else if lateJoined {
+						fl.waiters = append(fl.waiters, lateTh)
+						t.line("LS %d %d 0 J %d", lateTh, kLate, fl.g.id)
+						sum.Dist["late_arrival_joined"]++
+					}
+				}
 				// every waiter of this flight must have been released by now
 				want := map[int]bool{}
 				for _, w := range fl.waiters {
@@ -297,6 +371,7 @@ func runLoad(seed uint64, scale int, out string, _ string) *summary {
 				if registered[k2] == fl {
 					delete(registered, k2)
 				}
+				_ = lateTh
 			case x < 80:
 				v := val()
 				switch r.intn(3) {
